@@ -5,6 +5,7 @@ working tree, seeded runs + exhaustive stop-injection sweep, bit-exact trace rep
 solver's Lean loop model, and the property's monitors on the real solver's outputs.
 """
 import importlib
+import zlib
 import os
 import random
 import sys
@@ -222,7 +223,7 @@ def loop_check(pid, argv, *, monitor, n_quick, n_thorough, sweep_quick, sweep_th
         if exe is None:
             broken.append(f'[{s.name}] harness does not compile against the working tree: {log[-1200:]}')
             continue
-        rng = random.Random(C.seed() * 1000003 + (17 if tier == 'thorough' else 0) + hash(s.name) % 1000)
+        rng = random.Random(C.seed() * 1000003 + (17 if tier == 'thorough' else 0) + zlib.crc32(s.name.encode()) % 1000)
         ops = s.gen_ops(rng, per, exe, nsweep)
         r = s.replay(exe, ops)
         hout = r['hout']
